@@ -733,14 +733,53 @@ static C11_WEIGHTS: &[(u16, u32)] = &[
     (m::REMOVE_ALL_BUT, 2),
 ];
 
+static C11_SET_WEIGHTS: &[(u16, u32)] = &[
+    (st::INSERT, 14),
+    (st::INSERT_RANGE, 4),
+    (st::REMOVE, 8),
+    (st::SWAP, 12),
+    (st::CLONE, 20),
+    (st::PREDICATES, 12),
+    (st::MIRROR, 8),
+    (st::FILL_TO_CAPACITY, 3),
+    (st::REMOVE_RUN, 5),
+    (st::EXTEND, 3),
+    (st::CLEAR, 2),
+    (st::SHRINK_TO_FIT, 2),
+    (st::RESERVE, 2),
+    (st::ASSIGN, 3),
+    (st::REBUILD, 1),
+];
+
+static C11_TABLE_WEIGHTS: &[(u16, u32)] = &[
+    (t::INSERT_UNIQUE, 14),
+    (t::INSERT_DUP, 2),
+    (t::FIND, 3),
+    (t::FIND_ENTRY, 8),
+    (t::CLONE_SWAP, 16),
+    (t::RETAIN, 2),
+    (t::REMOVE_RUN, 5),
+    (t::FILL_TO_CAPACITY, 3),
+    (t::REHASH_SETUP, 2),
+    (t::CLEAR, 2),
+    (t::SHRINK_TO_FIT, 2),
+    (t::RESERVE, 2),
+    (t::REMOVE_NTH, 4),
+];
+
 fn c11_strategy(tier: Tier) -> BoxedStrategy<Case> {
-    map_case_strategy(MapGen {
-        prop: 11,
-        weights: C11_WEIGHTS,
-        max_ops: if tier == Tier::Quick { 100 } else { 300 },
-        generic_pct: 20,
-        plain_pct: 20,
-    })
+    let n = if tier == Tier::Quick { 100 } else { 300 };
+    union2(
+        union2(
+            map_case_strategy(MapGen { prop: 11, weights: C11_WEIGHTS, max_ops: n, generic_pct: 20, plain_pct: 20 }),
+            4,
+            set_case_strategy(SetGen { prop: 11, weights: C11_SET_WEIGHTS, max_ops: n, generic_pct: 20, plain_pct: 20 }),
+            1,
+        ),
+        10,
+        table_case_strategy(TableGen { prop: 11, weights: C11_TABLE_WEIGHTS, max_ops: n, generic_pct: 20, plain_pct: 20 }),
+        1,
+    )
 }
 
 fn c11_nontrivial(_c: &Case, o: &Outcome) -> bool {
@@ -749,7 +788,8 @@ fn c11_nontrivial(_c: &Case, o: &Outcome) -> bool {
 
 pub static C11: PropDef = PropDef {
     id: "C11",
-    rule: "two map slots with independent histories, capacities and differently seeded hash plans; swap / clone / \
+    rule: "two map slots (also: two HashSets; one HashTable with clone / clone_from swapped in) with independent \
+           histories, capacities and differently seeded hash plans; swap / clone / \
            clone_from / == in both directions, then both keep being mutated and compared with their own models; \
            non-trivial = clone_from into a target with a different bucket count or with tombstones, or == evaluated on \
            equal non-empty contents held under different hash plans",
@@ -760,14 +800,17 @@ pub static C11: PropDef = PropDef {
     eval: eval_plain,
     nontrivial: c11_nontrivial,
     specs: hbv::specs::MAP_OPS,
-    assumptions: &["HashSet == and clone are exercised by the C07 check; HashTable clone by C06/C03"],
+    assumptions: &["HashTable has no ==; its clone is compared element-wise through iteration"],
     prop_labels: &[],
 };
 
 // ---------------------------------------------------------------------------------------------
 // C13: churn is reclaimed; termination
 
-static C13_WEIGHTS: &[(u16, u32)] = &[(m::CAPPED_CHURN, 30), (m::GET, 3), (m::GET_ABSENT, 4), (m::REMOVE, 3), (m::ENTRY, 2), (m::REMOVE_NTH, 2)];
+// clone_to_other + swap = "snapshot and keep churning on the snapshot": a clone reserves nothing, so the
+// bound applies to it as well
+static C13_WEIGHTS: &[(u16, u32)] =
+    &[(m::CAPPED_CHURN, 30), (m::GET, 3), (m::GET_ABSENT, 4), (m::REMOVE, 3), (m::ENTRY, 2), (m::REMOVE_NTH, 2), (m::CLONE_TO_OTHER, 2), (m::SWAP, 2)];
 
 fn c13_strategy(tier: Tier) -> BoxedStrategy<Case> {
     use proptest::prelude::*;
@@ -784,6 +827,7 @@ fn c13_strategy(tier: Tier) -> BoxedStrategy<Case> {
         .prop_map(|(mut c, live_cap)| {
             c.set("c13", 1);
             c.set("cap", 0);
+            c.set("b_cap", 0);
             c.set("live_cap", live_cap);
             c.set("sweep", 64);
             c
